@@ -11,7 +11,9 @@
 //	accepted (200)  => every data row stored exactly once, time = requested conversion to
 //	                   microseconds, every other cell equal to its text read in the STORED type
 //	                   (whatever type the code inferred), empty cell = NULL (or "" for strings)
-//	refused (!=200) => nothing stored under the target measurement
+//	refused (!=200) => nothing stored under the target measurement, also after the follow-up
+//	                   FlushAll the driver issues after every upload (rows a refused request
+//	                   left in the ArrowBuffer would surface there)
 //
 // The model's predictions (accepted/refused, column types) are a drift detector only.
 package main
@@ -63,6 +65,9 @@ type pqSpec struct {
 	Nulls bool     `json:"nulls"`
 	TType string   `json:"ttype"`
 	Range string   `json:"range"`
+	// Groups: row groups (2 = rows {0,1} | {2}); Bad "nulltime": the last row has a NULL time
+	Groups int    `json:"groups"`
+	Bad    string `json:"bad"`
 }
 
 type scenario struct {
@@ -775,6 +780,7 @@ func buildDataCol(name, t string, nulls bool, rng string, n int) pqCol {
 // buildTimeCol: returns the arrow column, the expected micros (nil entry = not exactly defined)
 func buildTimeCol(name string, sc *scenario, n int) (arrow.Field, arrow.Array, []int64, bool) {
 	tt := sc.Pq.TType
+	nullLast := sc.Pq.Bad == "nulltime"
 	secs := make([]int64, n)
 	for k := range secs {
 		secs[k] = 1714561198 + int64(k) // 2024-05-01T10:59:58Z ...: spans an hour boundary
@@ -792,10 +798,14 @@ func buildTimeCol(name string, sc *scenario, n int) (arrow.Field, arrow.Array, [
 			if per >= 1000 {
 				v += per / 1000 * int64(3+k)
 			}
-			b.Append(arrow.Timestamp(v))
+			if nullLast && k == n-1 {
+				b.AppendNull()
+			} else {
+				b.Append(arrow.Timestamp(v))
+			}
 			exp[k] = v/per*1000000 + (v%per)*1000000/per
 		}
-		return arrow.Field{Name: name, Type: dt}, b.NewArray(), exp, false
+		return arrow.Field{Name: name, Type: dt, Nullable: true}, b.NewArray(), exp, false
 	case "string", "binary", "fsb":
 		var texts []string
 		for k := range secs {
@@ -805,8 +815,14 @@ func buildTimeCol(name string, sc *scenario, n int) (arrow.Field, arrow.Array, [
 		switch tt {
 		case "string":
 			b := array.NewStringBuilder(pool)
-			b.AppendValues(texts, nil)
-			return arrow.Field{Name: name, Type: arrow.BinaryTypes.String}, b.NewArray(), exp, false
+			for k, t := range texts {
+				if nullLast && k == n-1 {
+					b.AppendNull()
+				} else {
+					b.Append(t)
+				}
+			}
+			return arrow.Field{Name: name, Type: arrow.BinaryTypes.String, Nullable: true}, b.NewArray(), exp, false
 		case "binary":
 			b := array.NewBinaryBuilder(pool, arrow.BinaryTypes.Binary)
 			for _, s := range texts {
@@ -871,8 +887,14 @@ func buildTimeCol(name string, sc *scenario, n int) (arrow.Field, arrow.Array, [
 	switch tt {
 	case "int64":
 		b := array.NewInt64Builder(pool)
-		b.AppendValues(vals, nil)
-		return arrow.Field{Name: name, Type: arrow.PrimitiveTypes.Int64}, b.NewArray(), exp, inexact
+		for k, v := range vals {
+			if nullLast && k == n-1 {
+				b.AppendNull()
+			} else {
+				b.Append(v)
+			}
+		}
+		return arrow.Field{Name: name, Type: arrow.PrimitiveTypes.Int64, Nullable: true}, b.NewArray(), exp, inexact
 	case "int32":
 		b := array.NewInt32Builder(pool)
 		for _, v := range vals {
@@ -952,8 +974,16 @@ func buildParquet(r *rand.Rand, sc *scenario) ([]byte, *table, url.Values, error
 	defer tbl.Release()
 	var buf bytes.Buffer
 	chunk := int64(n)
-	if r.Intn(2) == 0 {
+	switch {
+	case sc.Pq.Groups == 2:
+		chunk = 2 // rows {0,1} | {2}: a bad last row sits alone in the last row group
+	case sc.Pq.Groups == 1 && sc.Pq.Bad == "nulltime":
+		chunk = int64(n)
+	case r.Intn(2) == 0:
 		chunk = 2 // two row groups -> chunked columns on the reading side
+	}
+	if sc.Pq.Bad == "nulltime" {
+		tb.badRow = n - 1
 	}
 	if err := pqarrow.WriteTable(tbl, &buf, chunk, parquet.NewWriterProperties(parquet.WithDictionaryDefault(r.Intn(2) == 0)),
 		pqarrow.NewArrowWriterProperties(pqarrow.WithStoreSchema())); err != nil {
@@ -1132,7 +1162,7 @@ func main() {
 			if sc.Mode == "csv" {
 				return fmt.Sprintf("csv|%v|%s|%s|%s|%s|%d|%s|%s|%s", sc.Cols, sc.TFmt, sc.TCls, sc.TUnit, sc.Bad, sc.Skip, sc.TName, sc.TPos, sc.Delim)
 			}
-			return fmt.Sprintf("pq|%v|%v|%s|%s|%s|%s|%s|%s", sc.Pq.Types, sc.Pq.Nulls, sc.Pq.TType, sc.Pq.Range, sc.TFmt, sc.TUnit, sc.TName, sc.TPos)
+			return fmt.Sprintf("pq|%v|%v|%s|%s|%d|%s|%s|%s|%s|%s", sc.Pq.Types, sc.Pq.Nulls, sc.Pq.TType, sc.Pq.Range, sc.Pq.Groups, sc.Pq.Bad, sc.TFmt, sc.TUnit, sc.TName, sc.TPos)
 		}
 		keys[keyOf()] = true
 
